@@ -15,6 +15,7 @@ import TsVerif.C06.CursorFcbFlat
 import TsVerif.C06.FieldNamed
 import TsVerif.C06.RangeFlat
 import TsVerif.C06.RangeFlatP
+import TsVerif.C06.EmptyRange
 #print axioms TsVerif.C06.child_spec
 #print axioms TsVerif.C06.flattenKids_length
 #print axioms TsVerif.C06.child_count_spec
@@ -147,3 +148,11 @@ import TsVerif.C06.RangeFlatP
 #print axioms TsVerif.C06.vgoP_eq_dfr
 #print axioms TsVerif.C06.ftgo_eq_vgoP
 #print axioms TsVerif.C06.descendant_for_point_range_ft_spec
+#print axioms TsVerif.C06.dfrScanE_eq
+#print axioms TsVerif.C06.descendant_for_empty_byte_range_port
+#print axioms TsVerif.C06.firstSelE_eq
+#print axioms TsVerif.C06.dfrHE
+#print axioms TsVerif.C06.emptyOK_sel
+#print axioms TsVerif.C06.vgoE_eq_dfr
+#print axioms TsVerif.C06.ftgo_eq_vgoE
+#print axioms TsVerif.C06.descendant_for_empty_byte_range_ft_spec
